@@ -2,6 +2,7 @@ package interp
 
 import (
 	"fmt"
+	"os"
 	"go/token"
 	"go/types"
 	"runtime"
@@ -61,6 +62,9 @@ func (fr *frame) get(key ssa.Value) Value {
 }
 
 func (e *Engine) rtPanic(fr *frame, msg string) {
+	if os.Getenv("VCHECK_PANICS") != "" {
+		fmt.Fprintf(os.Stderr, "PANIC %s at %s\n", msg, e.where(fr))
+	}
 	panic(targetPanic{runtime: true, msg: msg, where: e.where(fr)})
 }
 
